@@ -158,6 +158,17 @@ def lemma_brackets_automaton(reg, repo):
     st.assume(inv(env, H))
     lc = tostr(env["lexclass"])
     st.assume(z3.Or(lc == S_("LRB"), lc == S_("RRB"), lc == S_("WS"), lc == S_("TOKEN")))
+    # the initial values of the per-sentence variables, as assigned before the lexer loop
+    init = {}
+    for node in info.node.body:
+        if isinstance(node, ast.Assign) and len(node.targets) == 1 and isinstance(node.targets[0], ast.Name) \
+                and node.targets[0].id in ("state", "level", "term_cnt") and isinstance(node.value, ast.Constant) \
+                and isinstance(node.value.value, int):
+            init[node.targets[0].id] = node.value.value
+        if isinstance(node, ast.Assign) and ast.unparse(node) == "queue = []":
+            init["queue"] = []
+    if set(init) != {"state", "level", "term_cnt", "queue"}:
+        raise Unsupported("the initial values of state / level / term_cnt / queue were not found before the lexer loop")
     ex.obligations = []
     n_y0 = st.yielded.n
     q0, cnt0 = env["queue"], toint(env["cnt"])
@@ -176,13 +187,15 @@ def lemma_brackets_automaton(reg, repo):
         if o.kind != "normal":
             raise Unsupported("the automaton step leaves the loop body by %s" % o.kind)
         e = o.st.env
-        vcs.append(("path%d.invariant_kept" % oi, list(o.st.pc), inv(e, o.st.heap)))
+        vcs.append(("path%d.invariant_kept(proof-internal)" % oi, list(o.st.pc), inv(e, o.st.heap)))
         yielded = o.st.yielded
         # a sentence was yielded on this path iff the yielded list has grown
         grew = yielded.n == n_y0 + 1
         vcs.append(("path%d.yields_at_most_one_sentence" % oi, list(o.st.pc), z3.Or(yielded.n == n_y0, grew)))
         vcs.append(("path%d.reset_after_yield" % oi, list(o.st.pc), z3.Implies(grew, z3.And(
-            e["queue"].n == 0, toint(e["state"]) == 0, toint(e["level"]) == 0, toint(e["term_cnt"]) == 1,
+            # ... to the values the reader starts with (read from the assignments before the loop)
+            e["queue"].n == 0, toint(e["state"]) == init["state"], toint(e["level"]) == init["level"],
+            toint(e["term_cnt"]) == init["term_cnt"],
             toint(e["cnt"]) == cnt0 + 1,
             # what is yielded is the bottom of the stack, with the sentence id that was current
             yielded.get(n_y0).t == q0.get(0).t,
